@@ -418,6 +418,33 @@ def dup_variants_rules(rng):
     return out
 
 
+def counters_rules(moduli):
+    """a bottom marker g, any number of f, then one counter per modulus reading the same stack: a word is derived
+    exactly when the number of f is p-1 modulo every p - the shortest derivation pushes lcm(moduli)-1 symbols and the
+    marking needs about as many passes"""
+    names = "XYZW"
+    rules = [("prod", "S", "M", "g"), ("prod", "M", "M", "f"), ("end", "T", "t")]
+    heads = [names[i] + "0" for i in range(len(moduli))]
+    left = "M"
+    for i in range(len(moduli) - 2):
+        rules.append(("dup", left, heads[i], "R%d" % (i + 1)))
+        left = "R%d" % (i + 1)
+    rules.append(("dup", left, heads[-2], heads[-1]))
+    for i, m in enumerate(moduli):
+        for j in range(m):
+            rules.append(("cons", "f", names[i] + str(j), names[i] + str((j + 1) % m)))
+        rules.append(("cons", "g", names[i] + str(m - 1), "T"))
+    return rules
+
+
+def chain_rules(n):
+    """S -> A0 T, A0 -> A1 T, ... : a dependency path of n non-terminals"""
+    rules = [("dup", "S", "A0", "T"), ("end", "T", "epsilon"), ("end", "A%d" % (n - 1), "a")]
+    for i in range(n - 1):
+        rules.append(("dup", "A%d" % i, "A%d" % (i + 1), "T"))
+    return rules
+
+
 def tolib(rules, optim=7, start="S"):
     from pyformlang.indexed_grammar import (Rules, ConsumptionRule, EndRule, ProductionRule, DuplicationRule,
                                             IndexedGrammar)
@@ -455,6 +482,11 @@ def small_exhaustive():
 
 def plan(tier, rng, sl, nslices, stats):
     cfg = TIERS[tier]
+    if sl == 0:
+        # scale cases (one worker): a derivation 209 pushes deep, a dependency path of 1100 non-terminals
+        yield {"rules": [list(r) for r in counters_rules((2, 3, 5, 7))], "seed": 1, "scale": "counters"}
+        yield {"rules": [list(r) for r in counters_rules((3, 4, 5))], "seed": 2, "scale": "counters"}
+        yield {"rules": [list(r) for r in chain_rules(1100)], "seed": 3, "scale": "chain"}
     for i in range(cfg["random"]):
         rules = [rand_rules, layered_rules, detour_rules, alternatives_rules, detour_rules, dup_variants_rules][i % 6](rng)
         yield {"rules": [list(r) for r in rules], "seed": rng.randrange(1 << 30)}
@@ -555,7 +587,39 @@ def run_fresh(c, stats):
     return True
 
 
+def run_scale(c, stats):
+    rules = [tuple(r) for r in c["rules"]]
+    stats.cls("scale:" + c["scale"])
+    rng = random.Random(c["seed"])
+    for optim in ((7,) if c["scale"] == "chain" else (0, 7, 4)):
+        for shuffled in ((False,) if c["scale"] == "chain" else (False, True)):
+            lr = list(rules)
+            if shuffled:
+                rng.shuffle(lr)
+            random.seed(c["seed"])
+            ok, g = call(tolib, lr, optim)
+            if not ok:
+                continue
+            ok, v = call(g.is_empty)
+            core.LOG.count("C17.scale_verdicts")
+            if ok and bool(v):
+                # both families generate a word by construction
+                with core.oracle_mode():
+                    core.report(PROP, "is_empty", "wrong-empty-for-listed-rules", {"optim": optim}, ["scale:" + c["scale"]])
+            if c["scale"] == "counters" or (optim == 7 and not shuffled):
+                ok, u = call(g.remove_useless_rules)
+                if ok:
+                    ok, v2 = call(u.is_empty)
+                    if ok and bool(v2):
+                        with core.oracle_mode():
+                            core.report(PROP, "remove_useless_rules", "verdict-changed", {"optim": optim},
+                                        ["scale:" + c["scale"]])
+    return True
+
+
 def run_case(c, stats):
+    if c.get("scale"):
+        return run_scale(c, stats)
     if c.get("fresh"):
         return run_fresh(c, stats)
     rules = [tuple(r) for r in c["rules"]]
